@@ -1261,7 +1261,7 @@ fn long_run(plan: &Plan, stats: &mut Stats, log: &mut LogHash, vs: &mut Vec<V>, 
     let mut burst_left = 0u32;
     let mut wire_piece: Vec<u8> = Vec::new();
     let mut out_piece: Vec<u8> = Vec::new();
-    let mut push_v = |vs: &mut Vec<V>, prop: &'static str, inv: &'static str, detail: String| {
+    let push_v = |vs: &mut Vec<V>, prop: &'static str, inv: &'static str, detail: String| {
         if !vs.iter().any(|v| v.inv == inv) {
             vs.push(V { prop, inv, detail, at: usize::MAX });
         }
